@@ -335,7 +335,7 @@ func runCRDTEnqueue(c *core.Ctx) {
 		ok := false
 		ast.Inspect(recv.Body(), func(m ast.Node) bool {
 			if call, isCall := m.(*ast.CallExpr); isCall && an.CalleeFunc(info, call) == prep.Obj && len(call.Args) == 1 {
-				if sel, isSel := an.Unparen(call.Args[0]).(*ast.SelectorExpr); isSel && an.ObjOf(info, sel.X) == argsObj && sel.Sel.Name == "Value" {
+				if sel, isSel := an.Unparen(an.ResolveLocal(info, recv.Body(), call.Args[0])).(*ast.SelectorExpr); isSel && an.ObjOf(info, sel.X) == argsObj && sel.Sel.Name == "Value" {
 					ok = true
 				}
 			}
@@ -349,7 +349,7 @@ func runCRDTEnqueue(c *core.Ctx) {
 		ok := false
 		ast.Inspect(bc.Body(), func(m ast.Node) bool {
 			if call, isCall := m.(*ast.CallExpr); isCall && an.CalleeFunc(info, call) == prep.Obj && len(call.Args) == 1 {
-				if sel, isSel := an.Unparen(call.Args[0]).(*ast.SelectorExpr); isSel && sel.Sel.Name == "Value" {
+				if sel, isSel := an.Unparen(an.ResolveLocal(info, bc.Body(), call.Args[0])).(*ast.SelectorExpr); isSel && sel.Sel.Name == "Value" {
 					ok = true
 				}
 			}
